@@ -8,7 +8,7 @@
    from the application's call on one side to the handler / subscriber / awaitable on the other. *)
 From Coq Require Import NArith List Bool Init.Byte.
 From RSV Require Import gen.GenConst lib.Bytes model.Frame model.Parser model.Fragmenter model.SendQueue model.Pipeline
-     model.Endpoint model.Network proofs.FragmenterProofs proofs.SendQueueProofs proofs.PipelineProofs proofs.NetworkProofs.
+     model.Endpoint model.Network proofs.FragmenterProofs proofs.SendQueueProofs proofs.PipelineProofs proofs.NetworkProofs proofs.NetworkRequests.
 Import ListNotations.
 Open Scope N_scope.
 
@@ -130,6 +130,33 @@ Theorem C01_request_delivered : forall e f o u,
   exists p, carried f = Some p /\ app_payloads (snd (recv_dispatch e f o u)) = [p].
 Proof. exact request_delivered. Qed.
 Print Assumptions C01_request_delivered.
+
+(* EXACTLY ONCE over whole histories.  For every history of the two endpoints, side s and stream k of the peer's parity:
+   if the peer queued exactly one request frame f on stream k (ids are not reused: C13) and it has been dispatched, then
+   from the request frames of stream k the application's handler at s was handed the request's payload exactly once and
+   nothing else — whatever else happened on this or any other stream (cancels, errors, close sweeps on the other side,
+   other requests in flight), and whether or not the handler raised.  par SA = 1 (client, odd ids), par SB = 2. *)
+Theorem C01_network_request_exactly_once : forall ls s k f,
+  let tr := snd (net_run net_init ls) in
+  k <> 0 -> k mod 2 <> par s mod 2 ->
+  reqk k (nwire tr (other s)) = [f] -> In f (delivered tr s) ->
+  exists p, carried f = Some p /\ got_req tr s k = [p].
+Proof. exact network_request_exactly_once. Qed.
+Print Assumptions C01_network_request_exactly_once.
+
+Theorem C01_network_request_example :
+  let ls := [NLocal SA (LReqResponse [x01] [x02]); NLocal SB (LReqStream [x03] [x04]);
+             NLocal SB (LSubscribe 0%nat true [x03] [x04]);
+             NDeliver SB 1 OFuture true; NDeliver SA 2 OPublisher true;
+             NLocal SA (LPubNext 1%nat [x05] [x06] false); NLocal SB (LAppResolve 1%nat (ARResult [x07] [x08]));
+             NLocal SB (LFutCb 1%nat (ARResult [x07] [x08])); NLocal SA (LPubNext 1%nat [] [x09] true);
+             NDeliver SB 2 ONone true; NDeliver SA 1 ONone true; NDeliver SB 2 ONone true] in
+  let tr := snd (net_run net_init ls) in
+  let f := FRequestResponse 1 false false [x01] [x02] in
+  1 <> 0 /\ 1 mod 2 <> par SB mod 2 /\ reqk 1 (nwire tr (other SB)) = [f] /\ In f (delivered tr SB) /\
+  got_req tr SB 1 = [([x01], [x02])].
+Proof. exact request_example. Qed.
+Print Assumptions C01_network_request_example.
 
 (* non-vacuity: request-response from A, a stream from B with two elements overtaking the response on the link *)
 Theorem C01_network_example :
